@@ -1192,24 +1192,31 @@ Proof. induction ws as [|[] ws IH]; intros c; cbn; auto. Qed.
 
 (* function objects: plain functions / callable objects and the closures built by _transform *)
 Definition function_object (c : callable) : Prop :=
-  match c with CFun _ | CWrap _ _ _ => True | _ => False end.
+  match c with CFun _ | CWrap _ _ _ | CInst _ _ => True | _ => False end.
 
 Lemma callable_is_wrap : forall c, exists ws b, c = wrap ws b /\ function_object b.
 Proof.
-  induction c as [f|c [ws [b [-> Hb]]]|c [ws [b [-> Hb]]]|id ad c _].
+  induction c as [f|c [ws [b [-> Hb]]]|c [ws [b [-> Hb]]]|id ad c _|own bases].
   - exists [], (CFun f). split; [reflexivity|exact I].
   - exists (WPartial :: ws), b. split; [reflexivity|exact Hb].
   - exists (WMethod :: ws), b. split; [reflexivity|exact Hb].
   - exists [], (CWrap id ad c). split; [reflexivity|exact I].
+  - exists [], (CInst own bases). split; [reflexivity|exact I].
 Qed.
+
+Lemma chain_head : forall c, exists t, lookup_chain c = underlying c :: t.
+Proof. induction c as [f|c IH|c IH|id ad c _|own bases]; cbn; eauto. Qed.
+
+Lemma lookup_chain_wrap : forall ws c, lookup_chain (wrap ws c) = lookup_chain c.
+Proof. induction ws as [|[] ws IH]; intros c; cbn; auto. Qed.
 
 (* a closure handed out by adapt_func / restore_func does not inherit the native mark of what it
    wraps: it is native only if it was registered itself *)
 Theorem closure_not_native_by_inheritance : forall fl ws ws' id ad c,
   fl id = false -> is_native (register_native fl (wrap ws c)) (wrap ws' (CWrap id ad c)) = Nat.eqb id (underlying c).
 Proof.
-  intros fl ws ws' id ad c H. unfold is_native, register_native. rewrite !underlying_wrap. cbn [underlying].
-  destruct (Nat.eqb id (underlying c)); [reflexivity|exact H].
+  intros fl ws ws' id ad c H. unfold is_native, register_native. rewrite lookup_chain_wrap, underlying_wrap.
+  cbn [lookup_chain existsb]. rewrite orb_false_r. destruct (Nat.eqb id (underlying c)); [reflexivity|exact H].
 Qed.
 
 Theorem native_as_is : forall fl c, is_native fl c = true -> adapt_func fl c = Same c.
@@ -1218,34 +1225,63 @@ Proof. intros fl c H. unfold adapt_func. rewrite H. reflexivity. Qed.
 Theorem not_native_wrapped : forall fl c, is_native fl c = false -> adapt_func fl c = Wrapped c.
 Proof. intros fl c H. unfold adapt_func. rewrite H. reflexivity. Qed.
 
-Theorem registered_found_through_wrappers : forall fl ws ws' b,
-  is_native (register_native fl (wrap ws b)) (wrap ws' b) = true.
-Proof.
-  intros. unfold is_native, register_native. rewrite !underlying_wrap. rewrite Nat.eqb_refl. reflexivity.
-Qed.
-
 Theorem register_same_underlying : forall fl c c', underlying c' = underlying c ->
   is_native (register_native fl c) c' = true.
-Proof. intros fl c c' H. unfold is_native, register_native. rewrite H, Nat.eqb_refl. reflexivity. Qed.
+Proof.
+  intros fl c c' H. unfold is_native, register_native. destruct (chain_head c') as [t ->].
+  cbn [existsb]. rewrite H, Nat.eqb_refl. reflexivity.
+Qed.
 
-Theorem register_other : forall fl c c', underlying c' <> underlying c ->
+Theorem registered_found_through_wrappers : forall fl ws ws' b,
+  is_native (register_native fl (wrap ws b)) (wrap ws' b) = true.
+Proof. intros. apply register_same_underlying. rewrite !underlying_wrap. reflexivity. Qed.
+
+(* the mark of a class is found from its instances, from instances of its subclasses and from the
+   subclasses themselves (attribute lookup), also through partial / method wrappers *)
+Theorem class_registration_inherited : forall fl ws ws' cls own bases,
+  In (underlying cls) bases ->
+  is_native (register_native fl (wrap ws cls)) (wrap ws' (CInst own bases)) = true.
+Proof.
+  intros fl ws ws' cls own bases Hin. unfold is_native, register_native. rewrite lookup_chain_wrap, underlying_wrap.
+  cbn [lookup_chain existsb]. apply orb_true_iff. right. apply existsb_exists. exists (underlying cls).
+  split; [exact Hin|]. rewrite Nat.eqb_refl. reflexivity.
+Qed.
+
+(* ... but not the other way round: registering an instance marks neither its class nor the
+   other instances *)
+Theorem instance_registration_local : forall fl own bases own' bases',
+  own' <> own -> ~ In own bases' ->
+  is_native (register_native fl (CInst own bases)) (CInst own' bases') = is_native fl (CInst own' bases').
+Proof.
+  intros fl own bases own' bases' Hne Hni. unfold is_native, register_native. cbn [lookup_chain existsb underlying].
+  apply Nat.eqb_neq in Hne. rewrite Hne. f_equal. induction bases' as [|b l IH]; cbn; [reflexivity|].
+  rewrite IH by (intros H; apply Hni; right; exact H).
+  destruct (Nat.eqb b own) eqn:E; [|reflexivity]. apply Nat.eqb_eq in E. exfalso. apply Hni. left. exact E.
+Qed.
+
+Theorem register_other : forall fl c c', ~ In (underlying c) (lookup_chain c') ->
   is_native (register_native fl c) c' = is_native fl c'.
 Proof.
-  intros fl c c' H. unfold is_native, register_native. apply Nat.eqb_neq in H. rewrite H. reflexivity.
+  intros fl c c' H. unfold is_native, register_native. induction (lookup_chain c') as [|b l IH]; cbn; [reflexivity|].
+  rewrite IH by (intros Hin; apply H; right; exact Hin).
+  destruct (Nat.eqb b (underlying c)) eqn:E; [|reflexivity]. apply Nat.eqb_eq in E. exfalso. apply H. left. auto.
 Qed.
 
-Theorem unregister_same_underlying : forall fl c c', underlying c' = underlying c ->
-  is_native (unregister_native fl c) c' = false.
-Proof. intros fl c c' H. unfold is_native, unregister_native. rewrite H, Nat.eqb_refl. reflexivity. Qed.
-
-Theorem unregister_other : forall fl c c', underlying c' <> underlying c ->
+Theorem unregister_other : forall fl c c', ~ In (underlying c) (lookup_chain c') ->
   is_native (unregister_native fl c) c' = is_native fl c'.
 Proof.
-  intros fl c c' H. unfold is_native, unregister_native. apply Nat.eqb_neq in H. rewrite H. reflexivity.
+  intros fl c c' H. unfold is_native, unregister_native. induction (lookup_chain c') as [|b l IH]; cbn; [reflexivity|].
+  rewrite IH by (intros Hin; apply H; right; exact Hin).
+  destruct (Nat.eqb b (underlying c)) eqn:E; [|reflexivity]. apply Nat.eqb_eq in E. exfalso. apply H. left. auto.
 Qed.
 
+(* functions, partials, methods, closures: the chain is the underlying function alone *)
+Theorem unregister_same_underlying : forall fl c c', lookup_chain c' = [underlying c] ->
+  is_native (unregister_native fl c) c' = false.
+Proof. intros fl c c' H. unfold is_native, unregister_native. rewrite H. cbn. rewrite Nat.eqb_refl. reflexivity. Qed.
+
 (* the flags after a history of register / unregister calls are decided by the last call that
-   concerned the underlying function *)
+   concerned the object *)
 Lemma run_ops_last : forall ops fl cur f,
   fl f = match cur with Some true => true | _ => false end ->
   fold_left (fun fl op => match op with RegOp c => register_native fl c | UnregOp c => unregister_native fl c end)
@@ -1257,16 +1293,21 @@ Proof.
   - apply IH. unfold unregister_native. rewrite (Nat.eqb_sym f). destruct (Nat.eqb (underlying c) f); [reflexivity|exact H].
 Qed.
 
-Theorem registry_history : forall ops c,
-  is_native (run_ops ops) c = match last_op_on (underlying c) ops None with Some true => true | _ => false end.
-Proof. intros ops c. unfold is_native, run_ops. apply run_ops_last. reflexivity. Qed.
+Lemma existsb_ext {X} (f g : X -> bool) : forall l, (forall x, f x = g x) -> existsb f l = existsb g l.
+Proof. induction l as [|a l IH]; intros H; cbn; [reflexivity|]. rewrite H, IH; auto. Qed.
+
+Theorem registry_history : forall ops c, is_native (run_ops ops) c = registered ops c.
+Proof.
+  intros ops c. unfold is_native, registered. apply existsb_ext. intros f. unfold run_ops, reg_hist.
+  apply run_ops_last. reflexivity.
+Qed.
 
 (* the model satisfies the oracle evaluated on observed behaviour *)
 Theorem model_holds_registry : forall ops c,
   holds_registry ops c (is_native (run_ops ops) c) (adapted_is_same (adapt_func (run_ops ops) c)) = true.
 Proof.
   intros ops c. unfold holds_registry, adapt_func. rewrite (registry_history ops c).
-  destruct (last_op_on (underlying c) ops None) as [[]|]; reflexivity.
+  destruct (registered ops c); reflexivity.
 Qed.
 
 (* calling what adapt_func returned *)
@@ -1712,7 +1753,7 @@ Theorem model_holds_session : forall ops adapting q,
                 (expect_recv_dom (run_ops ops) adapting q) = true.
 Proof.
   intros ops adapting q. unfold holds_session, expect_recv_dom, adapt_func. rewrite (registry_history ops q).
-  destruct (last_op_on (underlying q) ops None) as [[]|]; destruct adapting; cbn [andb adapted_is_same];
+  destruct (registered ops q); destruct adapting; cbn [andb adapted_is_same];
     rewrite ?Bool.eqb_reflx; reflexivity.
 Qed.
 
